@@ -6,7 +6,7 @@ ACTIONS = [
     ("cp_nometa", "d", "d3"), ("cp_nometa", "g", "g3"), ("reopen",), ("boundary",), ("set_unknown", "d"), ("keep", "g/e", "F"),
     ("rm", "g/e"), ("mk", "n"), ("set", "g", "F"), ("del", "g/e", "F"),
     ("cp_obj", "g", "/", "c"), ("cp_obj", "d", "g", "c"), ("rm_root",),
-    ("cp_src_obj", "g", "g4"), ("sub_cp", "g", "e", "e2"),
+    ("cp_src_obj", "g", "g4"), ("sub_cp", "g", "e", "e2"), ("cp_root", "bk"),
 ]
 
 
